@@ -1,6 +1,35 @@
 package preprocessor
 
-import "github.com/internetarchive/Zeno/pkg/models"
+import (
+	"context"
 
-// VerifC05Preprocess runs the real, unexported preprocess() on a seed tree (C05 harness; added by overlay).
-func VerifC05Preprocess(seed *models.Item) { preprocess("c05", seed) }
+	"github.com/internetarchive/Zeno/internal/pkg/stats"
+	"github.com/internetarchive/Zeno/pkg/models"
+)
+
+// VerifC05Preprocess passes a seed tree through the real stage worker (C05 harness; added by overlay):
+// the worker loop runs on the calling goroutine (so that a panic reaches the caller), receives the tree
+// on its input channel, runs preprocess() and is stopped when the tree has left on the output channel.
+func VerifC05Preprocess(seed *models.Item) {
+	stats.Init()
+	ctx, cancel := context.WithCancel(context.Background())
+	defer cancel()
+	p := &preprocessor{ctx: ctx, cancel: cancel, inputCh: make(chan *models.Item, 1), outputCh: make(chan *models.Item)}
+	left := make(chan struct{})
+	go func() {
+		select {
+		case <-p.outputCh:
+			close(left)
+			cancel()
+		case <-ctx.Done():
+		}
+	}()
+	p.inputCh <- seed
+	p.wg.Add(1)
+	p.worker("c05")
+	select {
+	case <-left:
+	default:
+		panic("engine: the worker returned without handing the tree on")
+	}
+}
